@@ -34,8 +34,7 @@ TRUSTED = [
     "synced_collections 1.0.1 and the copy/pickle protocol are modelled, not verified",
     "gzip framing of the persistent cache file: only the decoded mapping is compared",
 ]
-ASSUMPTIONS = ["copy.copy is taken after the handle's state point was accessed (the early-copy defect is C04's finding 2)",
-               "a handle is pickled only while no shallow copy of it exists (RecursionError otherwise)",
+ASSUMPTIONS = ["a handle is pickled only while no shallow copy of it exists (RecursionError otherwise)",
                "values that compare == in Python but differ in type (1 / 1.0 / True) are not mixed (C04's finding 3)",
                "open_job(id=...) is only asked for ids that exist in the workspace or never existed",
                "handles pickled into a freshly started process are not exercised (same process only)",
@@ -110,6 +109,16 @@ SCRIPTS = {
                           ["DocSet", 0, "p", typed(1)], ["Sp", 0], ["Copy", 0], ["Move", 1, 1],
                           ["Edit", 0, [], ["set", "a", typed(2)]], ["IdPath", 1], ["Contains", 1, 1],
                           ["Init", 0, False], ["Edit", 0, [], ["set", "b", typed("x")]], ["DocSet", 1, "q", typed("v")]],
+    # the caller mutates the mapping it assigned; open by id in the same session and in a fresh one after update_cache
+    "caller-mutates-assigned": [["NewSession", "A"], ["OpenSp", 0, typed({"a": 0})], ["Init", 0, False],
+                                ["Assign", 0, typed({"a": 1, "c": [1, 2]})], ["MutateAssigned", 0, "x", typed(9), True],
+                                ["OpenId", 0, "21487dbdb7d184e96ed39a4c6f303841"], ["Sp", 1], ["UpdateCache", 0],
+                                ["UpdateSp", 0, typed({"d": {"n": [0]}}), False], ["MutateAssigned", 0, "m", typed(1), True],
+                                ["UpdateCache", 0], ["NewSession", "A"], ["Ids", 1]],
+    # a shallow copy taken before the state point was ever accessed follows (fix 0894ce6; C04's former finding 2)
+    "early-copy-follows": [["NewSession", "A"], ["OpenSp", 0, typed({"a": 0})], ["Init", 0, False], ["NewSession", "A"],
+                           ["OpenId", 1, "9bfd29df07674bc4aa960cf661b5acd2"], ["Copy", 1],
+                           ["Edit", 1, [], ["set", "a", typed(1)]], ["IdPath", 2], ["Sp", 2], ["DocSet", 2, "p", typed(1)]],
     "lifecycle-clean": [["NewSession", "A"], ["NewSession", "B"], ["OpenSp", 0, typed({"a": 0, "c": [1, 2]})],
                         ["Init", 0, False], ["DocSet", 0, "p", typed([1, {"z": None}])],
                         ["WriteFile", 0, ["sub", "x.bin"], "00ff10"], ["Sp", 0], ["Copy", 0],
@@ -217,7 +226,7 @@ def random_ops(desc, W):
             continue
         if W.handles and rng.random() < 0.12:
             # ---- composite patterns (classes of histories that single random ops rarely compose)
-            pat = rng.choice(["multikey", "mutate", "copymove"])
+            pat = rng.choice(["multikey", "mutate", "copymove", "mutate-assigned"])
             if pat == "multikey":
                 h = pick_handle(sp_safe)
                 j = W.handles[h]
@@ -243,6 +252,39 @@ def random_ops(desc, W):
                     yield ["Init", h, False]
                 yield ["UpdateSp", h, typed(u), rng.random() < 0.8]
                 if W.last_out == ["exn", "EDestinationExists"]:
+                    g = groups.get(h)
+                    dirty.update([h] + [i for i, gg in groups.items() if gg == g and g is not None])
+            elif pat == "mutate-assigned":
+                # the caller keeps mutating the mapping it assigned / passed to update_statepoint; the job is then
+                # opened by id in the same session and, after update_cache, in a fresh one (fix 64999d6)
+                h = pick_handle(sp_safe)
+                j = W.handles[h]
+                si = [i for i, r_ in enumerate(sess_root) if r_ == os.path.relpath(j._project.path, W.root)][0]
+                k = rng.choice(["c", "d"])
+                val = rng.choice([v for v in VALS[k] if isinstance(v, (list, dict))])
+                yield ["Init", h, False]
+                if rng.random() < 0.5:
+                    yield ["Assign", h, typed({**rand_sp(rng), k: val})]
+                else:
+                    yield ["UpdateSp", h, typed({k: val, "a": rng.choice(VALS["a"])}), True]
+                if W.last_out == ["unit"]:
+                    yield ["MutateAssigned", h, rng.choice(["x", "n"]), typed(rng.choice([9, "z"])), rng.random() < 0.85]
+                    jid = W.handles[h].id
+                    before = len(W.handles)
+                    yield ["OpenId", si, jid]
+                    if len(W.handles) > before:
+                        new_group(before)
+                        yield ["Sp", before]
+                    yield ["UpdateCache", si]
+                    yield ["NewSession", sess_root[si]]
+                    sess_root.append(sess_root[si])
+                    before = len(W.handles)
+                    yield ["OpenId", len(sess_root) - 1, jid]
+                    if len(W.handles) > before:
+                        new_group(before)
+                        yield ["Sp", before]
+                        yield ["Cached", before]
+                elif W.last_out == ["exn", "EDestinationExists"]:
                     g = groups.get(h)
                     dirty.update([h] + [i for i, gg in groups.items() if gg == g and g is not None])
             elif pat == "mutate":
@@ -271,7 +313,8 @@ def random_ops(desc, W):
                 if s2 is not None and h not in orphaned:
                     if rng.random() < 0.7:
                         yield ["Init", h, False]
-                    yield ["Sp", h]
+                    if rng.random() < 0.5:
+                        yield ["Sp", h]
                     before = len(W.handles)
                     yield ["Copy", h]
                     if len(W.handles) > before:
@@ -375,7 +418,8 @@ def random_ops(desc, W):
                 if len(W.handles) > before:
                     new_group(before)
         elif r < 0.84:
-            yield ["Sp", h]
+            if rng.random() < 0.5:       # since fix 0894ce6 a copy taken before the state point was accessed follows too
+                yield ["Sp", h]
             before = len(W.handles)
             yield ["Copy", h]
             if len(W.handles) > before:
